@@ -19,6 +19,8 @@ def gen(thorough=False):
         res.append(vlib.generate(SPEC, "MC_SixelQueue", f"Gen_SixelQueue_{rc}.cfg", os.path.join(vlib.GEN, f"sixel_sched_{rc}.ndjson")))
     res.append(vlib.generate(SPEC, "Gen_SixelGeo", "Gen_SixelGeo.cfg", os.path.join(vlib.GEN, "sixel_geo.ndjson")))
     res.append(vlib.generate(SPEC, "MC_SixelDecoder", "Gen_SixelDecoder.cfg", os.path.join(vlib.GEN, "sixel_payloads.ndjson"), workers=4))
+    # raster headers with extreme sizes, re-declared within one payload (every payload of <= 3 tokens over the "big" alphabet)
+    res.append(vlib.generate(SPEC, "MC_SixelDecoder", "Gen_SixelDecoder_big.cfg", os.path.join(vlib.GEN, "sixel_payloads_big.ndjson"), workers=4))
     if thorough:
         for rc in (2, 4):
             cfg = f"Gen_SixelQueue_{rc}_k4.cfg"
